@@ -131,6 +131,9 @@ BufOp ==
           /\ ops' = Append(ops, OpRec("set_limit", "", v, p, <<>>, <<>>, 0, NoSrc)) /\ tree' = SetLim(tree, p, v)
      \/ /\ "into_iter" \in OpNames
         /\ ops' = Append(ops, OpRec("into_iter", "", 0, <<>>, <<>>, <<>>, 0, NoSrc)) /\ tree' = Consume(tree, len)
+     \/ \E n \in (IF "iter_nth" \in OpNames THEN {0, 1, len - 1, len, len + 2} ELSE {}) :
+          /\ n >= 0
+          /\ ops' = Append(ops, OpRec("iter_nth", "", n, <<>>, <<>>, <<>>, 0, NoSrc)) /\ tree' = Consume(tree, Min2(n + 1, len))
   /\ UNCHANGED <<stack, phase, tree0, nleaf>>
 
 SrcTrees == {[k |-> "leaf", ty |-> "slice", limit |-> 0, d |-> <<201, 202, 203>>, cut |-> 0, cl |-> <<3>>],
@@ -153,7 +156,7 @@ MutOp ==
      \/ \E k \in (IF "put_slice" \in OpNames THEN {0, 1, 2, 5} ELSE {}) :
           LET d == [i \in 1..k |-> 100 + i + Len(ops)] IN
           /\ ops' = Append(ops, OpRec("put_slice", "", k, <<>>, d, <<>>, 0, NoSrc)) /\ tree' = wr(d)
-     \/ \E k \in (IF "put_bytes" \in OpNames THEN {0, 1, 3} ELSE {}) :
+     \/ \E k \in (IF "put_bytes" \in OpNames THEN {0, 1, 2, 3, 5} ELSE {}) :
           /\ ops' = Append(ops, OpRec("put_bytes", "", k, <<>>, <<>>, <<>>, 77, NoSrc)) /\ tree' = wr([i \in 1..k |-> 77])
      \/ \E s \in (IF "put_buf" \in OpNames THEN SrcTrees ELSE {}) :
           /\ ops' = Append(ops, OpRec("put_buf", "", 0, <<>>, <<>>, <<>>, 0, s)) /\ tree' = wr(Flat(s))
@@ -165,6 +168,11 @@ MutOp ==
           /\ ops' = Append(ops, OpRec("manual", "", k, <<>>, [i \in 1..k |-> 180 + i], <<>>, 0, NoSrc)) /\ tree' = [k |-> "gone", limit |-> 0]
      \/ \E p \in (IF "set_limit" \in OpNames THEN LimPaths(tree) ELSE {}), v \in {0, 1, 3, MAXW} :
           /\ ops' = Append(ops, OpRec("set_limit", "", v, p, <<>>, <<>>, 0, NoSrc)) /\ tree' = SetLim(tree, p, v)
+     \* a bare advance_mut over already initialised memory (fixed targets only: their storage is
+     \* initialised with FILL): the cursor moves as if FILL bytes had been written
+     \/ \E k \in (IF "advance_mut" \in OpNames /\ AllFixed(tree) THEN {0, 1, 2, 3, room} ELSE {}) :
+          /\ k <= room
+          /\ ops' = Append(ops, OpRec("advance_mut", "", k, <<>>, <<>>, <<>>, 0, NoSrc)) /\ tree' = WriteTree(tree, [i \in 1..k |-> FILL])
   /\ UNCHANGED <<stack, phase, tree0, nleaf>>
 
 Finish ==
